@@ -8,6 +8,7 @@ CONSTANTS
   MaxCrashes = 0
   Coarse = TRUE
   StatByName = FALSE
+  StampFirst = FALSE
   KnownCauses = {"parse_edit_store","copy_window","equal_mtime"}
 CHECK_DEADLOCK FALSE
 INVARIANT TypeOK
